@@ -31,10 +31,17 @@ def cases(tier, seed):
         cfg = scat.gen_config(rng, kind)
         u = float(rng.uniform(-4, 4))
         L = 10.0 ** round(u) if i % 3 == 0 else 10.0 ** u
+        if i % 7 in (3, 5):
+            # the units people actually use next to micrometres: metres (SI), and nanometres the other way round -- as powers of ten, and
+            # as the neighbouring powers of TWO, for which every length scales without rounding: the solvers then see bit-identical
+            # dimensionless inputs, so not even an iterative solver's tolerance excuses a difference
+            L = [1e-6, 2.0 ** -20, 1e-9, 2.0 ** 20, 1e6, 2.0 ** -30][(i // 7) % 6]
         cost = 8 if kind.startswith(("lens", "tmatrix", "multi")) else 1
         out.append({"id": "u-%d" % i, "kind": "units", "ckind": kind, "cfg": cfg, "L": L, "scaling": float(rng.uniform(0.3, 1.5)), "cost": cost,
                     # every third configuration is also written in a small integer unit (tenths of a nanometre, every length a Python int)
-                    "intunits": bool(i % 3 == 1)})
+                    "intunits": bool(i % 3 == 1),
+                    # (the sign of a non-absorbing cluster's absorption at the solver's tolerance is C03's subject, not this check's)
+                    "allow_events": ["contract.calc_cross_sections.cabs_negative", "contract.calc_cross_sections.energy"] if kind.startswith("multi") else []})
     # default call form (no theory named): the theory HoloPy picks must not depend on the unit of length either
     na = 40 if tier == "quick" else 800
     for i in range(na):
@@ -76,7 +83,7 @@ def _all(cfg, scaling, ckind):
            "intensity": calc_intensity(det, s, theory=th, **a)}
     if cfg["theory"]["t"] in ("Mie", "Multisphere", "Tmatrix") and not (cfg["theory"]["t"] == "Mie" and cfg["scat"]["t"] == "spheres"):
         res["smat"] = calc_scat_matrix(det, s, o["medium_index"], o["illum_wavelen"], theory=th)
-    if cfg["theory"]["t"] == "Mie" and cfg["scat"]["t"] in ("sphere", "layered"):
+    if (cfg["theory"]["t"] == "Mie" and cfg["scat"]["t"] in ("sphere", "layered")) or (cfg["theory"]["t"] == "Multisphere" and cfg["scat"]["t"] == "spheres"):
         res["xsec"] = calc_cross_sections(s, theory=th, **a)
     return res
 
@@ -201,7 +208,12 @@ def judge(case, obs):
                 out.append({"mech": "auto.%s" % k.replace("@", "."), "detail": "%s=%.3e > %.0e; chosen=%s separation %.3g r_max L=%.6g" % (k, v, TOL, obs.get("chosen"), case["sep_over_rmax"], case["L"])})
         return out
     TOL = _tol(case)
+    exact = math.frexp(case["L"])[0] == 0.5          # a power of two
     for k, v in obs["resid"].items():
+        if exact and k.startswith("scale_") and not v <= 1e-10:
+            out.append({"mech": "units.%s.exact_binary_rescaling" % k.replace("@", "."),
+                        "detail": "%s=%.3e > 1e-10 although L = %r is a power of two; kind=%s theory=%s" % (k, v, case["L"], case["ckind"], case["cfg"]["theory"])})
+            continue
         # single-precision lengths carry 6e-8 of relative rounding, which the phase k z (hundreds) multiplies: they must give the same
         # picture to a part in a thousand (and not NaN); everything else is judged to solver accuracy
         if not v <= (max(TOL, 1e-3) if k.startswith("float32type_") else TOL):
